@@ -123,7 +123,7 @@ def run(prog, rep, tier='quick', config='default'):
     r16de(prog, rep, parse)
 
     # ------------------------------------------------------------------ R16b
-    ALLOWED = {'get', 'contains_key', 'new', 'with_capacity', 'drop', 'clone', 'default', 'insert'}
+    ALLOWED = {'get', 'remove', 'contains_key', 'new', 'with_capacity', 'drop', 'clone', 'default', 'insert'}   # remove(&key): a keyed look-up that takes the value
     n_uses = 0
     for fn in prog.product_fns():
         for c in fn.calls:
@@ -160,7 +160,7 @@ def run(prog, rep, tier='quick', config='default'):
     gets = []
     for fn in prog.product_fns():
         for c in fn.calls:
-            if c.short == 'get' and MAPTY.search(fn.ty.get(c.arg_local(0), '') or '') and len(c.args) > 1:
+            if c.short in ('get', 'remove') and MAPTY.search(fn.ty.get(c.arg_local(0), '') or '') and len(c.args) > 1:
                 gets.append((fn, c))
     if not rep.anchor('HashMap::get on the opening-position map', [g[1] for g in gets]):
         return
